@@ -33,7 +33,7 @@ class Out:
                 {
                     "entry_point": entry,
                     "case": {k: rec[k] for k in ("kind", "code", "mt", "act", "args")},
-                    "seq": "".join(rec["seq"]),
+                    "seq": "".join(rec["seq"]) if len(rec["seq"]) <= 4000 else f"<specs/GeneticCode.tla LongSeq({len(rec['seq'])})>",
                     "seq2": "".join(rec["seq2"]),
                     "set": rec["set"],
                     "expected": expected,
@@ -46,6 +46,16 @@ class Out:
 
 def J(chars):
     return "".join(chars)
+
+
+def seq_txt(rec):
+    L = len(rec["seq"])
+    return J(rec["seq"]) if L <= 60 else f"LongSeq({L})"
+
+
+def long_class(rec):
+    n = len(rec["seq"]) // 3
+    return ":codons>=65536" if n >= 65536 else ":codons>=256" if n >= 256 else ""
 
 
 def call(f):
@@ -253,6 +263,7 @@ def _frame_cmp(rec, out, entry, strand, k, want, allow_reject, st, got, others=N
     out.count(entry)
     L = len(rec["seq"])
     cls = f"{strand}:start={k}:Lmod3={L % 3}"
+    long_cls = ":codons>=65536" if L // 3 >= 65536 else ":codons>=256" if L // 3 >= 256 else ""
     if st == "raised":
         if allow_reject:
             out.unsupported += 1
@@ -263,12 +274,17 @@ def _frame_cmp(rec, out, entry, strand, k, want, allow_reject, st, got, others=N
     if got == want:
         return
     diff = "wrong-protein"
-    if others and got in others:
+    if len(got) != len(want):
+        diff = "wrong-length"
+    elif others and got in others:
         diff = "other-frame-of-same-strand"
     elif variant == "[rna-string]" and len(got) == len(want) and "X" in got and all(g == w or g == "X" for g, w in zip(got, want)):
         out.fail(f"Frames:{entry}{variant}:codons-with-U-become-X", rec, entry, want, got, f"frame {strand}{k} of {to_rna(J(rec['seq']))}")
         return
-    out.fail(f"Frames:{entry}{variant}:{cls}:{diff}", rec, entry, want, got, f"frame {strand}{k} of {J(rec['seq'])} code {rec['code']}")
+    if diff in ("wrong-protein", "wrong-length"):
+        diff += long_cls  # length class of the input (k-mer index arrays change dtype with length)
+    seq_txt = J(rec["seq"]) if L <= 60 else f"LongSeq({L})"
+    out.fail(f"Frames:{entry}{variant}:{cls}:{diff}", rec, entry, want, got, f"frame {strand}{k} of {seq_txt} code {rec['code']}")
 
 
 def check_frames_gc(rec, out: Out, rna=False):
@@ -413,6 +429,42 @@ def check_frames_seq(rec, out: Out):
             _frame_cmp(rec, out, f"{entry}.rc.slice.get_translation", "minus", k, minus[k], False, st, got)
 
 
+def check_frames_long(rec, out: Out):
+    """long family: whole-sequence translation through sequence objects and collections (both strands)"""
+    api = Api.get()
+    code, s = rec["code"], J(rec["seq"])
+    six = rec["ret"]["six"]
+    plus0, minus0 = J(six["plus"][0]), J(six["minus"][0])
+    kw = dict(gc=code, include_stop=True, trim_stop=False, incomplete_ok=True)
+    entries = [
+        ("new-seq-dna", lambda: api.new_seq(s, "dna")),
+        ("new-seq-rna", lambda: api.new_seq(s, "rna")),
+    ]
+    if len(s) <= 4000:
+        entries.append(("old-seq-dna", lambda: api.old_seq(s, "dna")))
+    for entry, mk in entries:
+        st, seq = call(mk)
+        if st != "ok":
+            out.fail(f"Frames:{entry}:construct", rec, entry, len(s), seq)
+            continue
+        st, got = call(lambda: str(seq.get_translation(**kw)))
+        _frame_cmp(rec, out, f"{entry}.get_translation", "plus", 0, plus0, False, st, got)
+        st, got = call(lambda: str(seq.rc().get_translation(**kw)))
+        _frame_cmp(rec, out, f"{entry}.rc.get_translation", "minus", 0, minus0, False, st, got)
+    colls = [("new-SequenceCollection", lambda: api.new_coll({NAME: s}))]
+    if len(s) <= 4000:
+        colls += [(e, (lambda e=e: api.old_coll(e, {NAME: s}))) for e in api.old_colls]
+    for entry, mk in colls:
+        st, coll = call(mk)
+        if st != "ok":
+            out.fail(f"Frames:{entry}:construct", rec, entry, len(s), coll)
+            continue
+        st, got = call(lambda: str(coll.get_translation(**kw).to_dict()[NAME]))
+        _frame_cmp(rec, out, f"{entry}.get_translation", "plus", 0, plus0, False, st, got)
+        st, got = call(lambda: str(coll.rc().get_translation(**kw).to_dict()[NAME]))
+        _frame_cmp(rec, out, f"{entry}.rc.get_translation", "minus", 0, minus0, False, st, got)
+
+
 # -------------------------------------------------------------- stop handling
 def _opt_key(args):
     inc, trim, iok = args
@@ -465,8 +517,8 @@ def _gt_compare(rec, out, entry, allowed, diag, st, got, info):
     key = _gt_key(rec, entry, allowed, diag, st, got, observed)
     opts = _opt_key(rec["args"])
     if key is None:
-        key = f"GetTranslation:{entry}:{opts}:Lmod3={len(rec['seq']) % 3}:{info}:{_classify(observed, allowed)}"
-    out.fail(key, rec, entry, allowed, got if st == "raised" else observed, f"get_translation({opts}) of {J(rec['seq'])} code {rec['code']}")
+        key = f"GetTranslation:{entry}:{opts}:Lmod3={len(rec['seq']) % 3}:{info}:{_classify(observed, allowed)}{long_class(rec)}"
+    out.fail(key, rec, entry, allowed, got if st == "raised" else observed, f"get_translation({opts}) of {seq_txt(rec)} code {rec['code']}")
 
 
 def check_get_translation(rec, out: Out):
@@ -530,7 +582,7 @@ def _stop_compare(rec, out, entry, op, want, st, got):
         else:
             diff = "wrong"
         key = f"StopOps:{entry}:{op}:strict={strict}:Lmod3={L % 3}:{diff}"
-    out.fail(key, rec, entry, want, got, f"{op}(strict={bool(strict)}) of {J(rec['seq'])} code {rec['code']}")
+    out.fail(key, rec, entry, want, got, f"{op}(strict={bool(strict)}) of {seq_txt(rec)} code {rec['code']}")
 
 
 def check_stop_ops(rec, out: Out):
